@@ -138,7 +138,7 @@ func c10Corpus(scs []*c10Scenario, add func(*c10Plan)) {
 		}
 		for i, m := range sc.Opt.Msgs {
 			if _, ok := m.(*pwr.BsdiffHeader); ok {
-				for _, v := range []int64{int64(len(sc.Opt.TC.Files)), -1} {
+				for _, v := range []int64{int64(len(sc.Opt.TC.Files)), -1, 1 << 62} {
 					s := sc.Opt.clone()
 					s.Msgs[i].(*pwr.BsdiffHeader).TargetIndex = v
 					plan(sc, "opt", c10FPatFresh, fmt.Sprintf("BsdiffHeader.targetIndex=%d (processBsdiff -> pool.GetReadSeeker)", v), s)
@@ -205,6 +205,11 @@ func c10Cls(class string) string {
 
 func c10Emit(c *Ctx, p *c10Plan, r *c10Res, lim *c10Limits) {
 	oracle := ""
+	if r.Class == "skipped" {
+		c.Out.Emit(&lib.Case{Class: p.Feeder + ":skipped", Input: map[string]interface{}{"scenario": p.Scenario, "base": p.Base, "mutation": p.Desc, "feeder": p.Feeder},
+			Obs: map[string]interface{}{"class": "skipped", "why": r.Msg}})
+		return
+	}
 	if r.Class != "ok" && r.Class != "error" {
 		site := r.Wharf
 		if site == "" {
